@@ -3,6 +3,7 @@
    [expected_kind], [p_step], [trace_ok], [valid_ops] are in Spec.v. *)
 From VF Require Import LockSet.Model LockSet.Spec LockSet.Proofs
   LockSet.ProofsBase LockSet.ProofsSet LockSet.ProofsHist.
+From Coq Require Import Lia.
 Open Scope N_scope.
 
 (* ---- Test ----------------------------------------------------------------- *)
@@ -144,6 +145,19 @@ Theorem monitor_holds_on_model : forall ops, valid_ops ops -> trace_ok [] ops = 
 Proof. exact trace_ok_all. Qed.
 Print Assumptions monitor_holds_on_model.
 
+(* Full statement wanted: forall ops (uint64 arguments), trace_ok [] ops = true.
+   It is false of the model, which follows the code: LOCK with
+   offset = length = 2^64-1 is accepted as the empty range [2^64-1, 2^64-1),
+   two owners are both granted an exclusive lock "from the last offset to
+   end of file", and an entry holding no byte enters the table
+   (known finding "empty-range-accepted"; [valid_ops] excludes exactly this
+   pair). *)
+Theorem monitor_refuted_on_empty_range :
+  exists ops, trace_ok [] ops = false /\
+    snd (run [] ops) = [Granted 1; Granted 1] /\ wf (state_after ops) = false.
+Proof. exact trace_ok_refuted_without_valid. Qed.
+Print Assumptions monitor_refuted_on_empty_range.
+
 (* ---- offsetLengthToStartEnd ----------------------------------------------- *)
 
 Theorem offset_length_exact : forall off len, off <= max_u64 -> len <= max_u64 ->
@@ -177,15 +191,21 @@ Print Assumptions offset_length_nonempty_refuted.
 (* ---- non-vacuity ---------------------------------------------------------- *)
 
 Example demo_valid : valid_ops demo_ops /\ no_raw demo_ops.
-Proof. split; repeat constructor. Qed.
+Proof.
+  split; [|repeat constructor].
+  repeat (constructor; [cbn; unfold max_u64; lia|]). constructor.
+Qed.
 
-(* A reachable table after a split (+2), two denials, a merge (-3) and a
-   range ending at 2^64-1. *)
+(* A reachable table after a split (+2), two denials, a merge (-3), a
+   range ending at 2^64-1, and requests through OpenedFile (denied with the
+   conflicting lock as (offset, length); length 0 rejected; UnlockAll). *)
 Example demo_run : run [] demo_ops =
   ([mkLock 0 1 2 Shared; mkLock 0 10 1 Shared; mkLock 2 3 2 Shared;
-    mkLock 12 18446744073709551615 3 Exclusive],
+    mkLock 18446744073709551614 18446744073709551615 4 Shared],
    [Granted 1; Granted 2; Granted 1; Denied (mkLock 0 3 1 Shared);
-    Denied (mkLock 3 6 1 Exclusive); Granted 1; Granted (-3); Granted 1; Granted 1]).
+    Denied (mkLock 3 6 1 Exclusive); Granted 1; Granted (-3); Granted 1; Granted 1;
+    DeniedNfs 12 18446744073709551615 true 3; Inval;
+    DeniedNfs 12 18446744073709551615 true 3; Granted (-1); Granted 1]).
 Proof. vm_compute. reflexivity. Qed.
 
 Example demo_monitor : trace_ok [] demo_ops = true.
